@@ -268,6 +268,13 @@ def run(ctx):
             ctx.violation(conv="TimeDelta(seconds)", value=repr(s), observed=show(o), required="a value, or OverflowError out of range")
         ctx.case(("secs", repr(s)))
         ctx.count("seconds_kind", type(s).__name__)
+    # finite values no TimeDelta can hold — however far outside — are an OverflowError, whatever numeric type they come in
+    for big in (10**20, -10**20, 2**63, 1e20, -1e300, Decimal("1e20"), Decimal("-1e40"), Decimal("1e64"), Decimal("1e70"), Decimal("-1e300"),
+                Decimal(2**63), Decimal("9223372036854775808.5")):
+        o = outcome(bt.TimeDelta, big)
+        ctx.case(("td-too-big", repr(big)))
+        if not (o[0] == "err" and o[1] == "OverflowError"):
+            ctx.violation(conv="TimeDelta(seconds)", value=repr(big), observed=show(o), required="OverflowError")
     for bad in (float("nan"), float("inf"), -float("inf"), Decimal("NaN"), Decimal("Infinity")):
         o = outcome(bt.TimeDelta, bad)
         if o[0] != "err":
